@@ -135,8 +135,9 @@ func seedMap(es []seedEntry) (*gostatsd.MetricMap, string) {
 }
 
 type op struct {
-	Op      string      `json:"op"` // seed | recv | merge | mergemaps | bmap | bmetrics
-	R       int         `json:"r"`  // register; for bmap / bmetrics: worker index
+	Op      string      `json:"op"`             // seed | recv | merge | mergemaps | bmap | bmetrics
+	Keys    []string    `json:"keys,omitempty"` // splitbytags: the forwarder's dynamic header tag names
+	R       int         `json:"r"`              // register; for bmap / bmetrics: worker index
 	From    int         `json:"from,omitempty"`
 	Srcs    []int       `json:"srcs,omitempty"`
 	Dp      *mmgen.Dp   `json:"dp,omitempty"`
@@ -263,7 +264,7 @@ func runProg(em *hlib.Emitter, in input, final int) {
 	var ops []string
 	var sources []consumed
 	okReg := func(i int) bool { return i >= 0 && i < in.NRegs }
-	nmerge, nlate := 0, 0
+	nmerge, nlate, nsplit, nparts := 0, 0, 0, 0
 	// lexed datapoints are received as the parser does: the run of lines for one register is lexed
 	// first, then folded through Receive (which hands the metrics back to the pool)
 	var pending []*gostatsd.Metric
@@ -331,6 +332,32 @@ func runProg(em *hlib.Emitter, in input, final int) {
 				dead[o.From] = true
 				nmerge++
 				ops = append(ops, hlib.App("OMerge", hlib.Nat(o.R), hlib.Nat(o.From)))
+			case "splitbytags":
+				// the forwarder groups one flush by header tags (SplitByTags), posts one request per
+				// group, and the ingesting side merges the requests again: nothing lost, nothing doubled
+				if !okReg(o.R) || dead[o.R] {
+					continue
+				}
+				before := takeSnap(regs[o.R])
+				parts := regs[o.R].SplitByTags(o.Keys)
+				var pk []string
+				for k := range parts {
+					pk = append(pk, k)
+				}
+				sort.Strings(pk)
+				var ms []*gostatsd.MetricMap
+				for _, k := range pk {
+					ms = append(ms, parts[k])
+				}
+				sources = append(sources, consumed{at, regs[o.R], before})
+				if len(ms) > 0 {
+					regs[o.R] = gostatsd.MergeMaps(ms)
+				} else {
+					regs[o.R] = gostatsd.NewMetricMap(false)
+				}
+				nsplit++
+				nparts += len(ms)
+				ops = append(ops, hlib.App("OSplitMerge", hlib.Nat(o.R)))
 			case "mergemaps":
 				var ms []*gostatsd.MetricMap
 				var ss []string
@@ -402,7 +429,7 @@ func runProg(em *hlib.Emitter, in input, final int) {
 			familyProjection[in.Family] = p
 		}
 	}
-	c.Obs = map[string]int{"live_series": nseries, "merges": nmerge, "late_receives": nlate, "sources_reread": len(sources), "lexed": nlexed}
+	c.Obs = map[string]int{"live_series": nseries, "merges": nmerge, "late_receives": nlate, "sources_reread": len(sources), "lexed": nlexed, "splits": nsplit, "split_parts": nparts}
 	em.Emit(c)
 }
 
@@ -690,6 +717,33 @@ func genFamily(r *hlib.Rand, fam int) []input {
 		// A "late" batch has no register of its own: its datapoints are received one by one into
 		// an intermediate result (a Recv node of the merge tree).
 		in := input{NRegs: k + 2, Family: fam}
+		// header tag names for SplitByTags: prefixes of tags that occur (some / several match), names
+		// that match nothing, the source element "s:", the empty name, no names at all
+		var tagPool []string
+		for _, b := range batches {
+			for _, d := range b.Dps {
+				tagPool = append(tagPool, d.Tags...)
+			}
+		}
+		headerKeys := func() []string {
+			var ks []string
+			for n := []int{0, 1, 1, 1, 2, 2, 3}[r.Intn(7)]; n > 0; n-- {
+				switch c := r.Intn(8); {
+				case c == 0:
+					ks = append(ks, "zz")
+				case c == 1:
+					ks = append(ks, "s:")
+				case c == 2:
+					ks = append(ks, "")
+				case len(tagPool) > 0:
+					t := tagPool[r.Intn(len(tagPool))]
+					ks = append(ks, t[:r.Range(1, len(t))])
+				default:
+					ks = append(ks, "a")
+				}
+			}
+			return ks
+		}
 		late := make([]bool, k)
 		nown := 0
 		for i := range batches {
@@ -760,8 +814,14 @@ func genFamily(r *hlib.Rand, fam int) []input {
 			if r.Chance(1, 3) {
 				in.Ops = append(in.Ops, op{Op: "noise", R: r.Range(2, 6)})
 			}
+			if r.Chance(1, 3) {
+				in.Ops = append(in.Ops, op{Op: "splitbytags", R: live[r.Intn(len(live))], Keys: headerKeys()})
+			}
 		}
 		flushLate(true)
+		if r.Chance(1, 2) {
+			in.Ops = append(in.Ops, op{Op: "splitbytags", R: live[0], Keys: headerKeys()})
+		}
 		if r.Bool() {
 			in.Ops = append(in.Ops, op{Op: "noise", R: r.Range(2, 6)})
 		}
